@@ -1,0 +1,50 @@
+// SPDX-FileCopyrightText: 2026 The Pion community <https://pion.ly>
+// SPDX-License-Identifier: MIT
+
+//go:build verif && !js
+
+package webrtc
+
+import (
+	"github.com/pion/sdp/v3"
+)
+
+// VerifCodecsFromSDP parses an SDP and returns, per m-section, what codecsFromMediaDescription reads
+// (nil when it fails). Verification hook (C10, C16): lets the harness confirm that the synthetic remote
+// description it rendered is read the way the operation line describes it.
+func VerifCodecsFromSDP(raw string) ([][]RTPCodecParameters, error) {
+	parsed := &sdp.SessionDescription{}
+	if err := parsed.UnmarshalString(raw); err != nil {
+		return nil, err
+	}
+	out := [][]RTPCodecParameters{}
+	for _, media := range parsed.MediaDescriptions {
+		codecs, err := codecsFromMediaDescription(media)
+		if err != nil {
+			codecs = nil
+		} else if codecs == nil {
+			codecs = []RTPCodecParameters{}
+		}
+		out = append(out, codecs)
+	}
+
+	return out, nil
+}
+
+// VerifNegotiationState reports whether the PeerConnection's MediaEngine has attempted to negotiate audio /
+// video, and whether two negotiated header-extension ids carry the same URI (in which case the id that the
+// not-yet-negotiated branch of getRTPParametersByKind picks for that URI depends on Go's map iteration order).
+func VerifNegotiationState(pc *PeerConnection) (audio, video, sameURITwice bool) {
+	engine := pc.api.mediaEngine
+	engine.mu.RLock()
+	defer engine.mu.RUnlock()
+	seen := map[string]bool{}
+	for _, ext := range engine.negotiatedHeaderExtensions {
+		if seen[ext.uri] {
+			sameURITwice = true
+		}
+		seen[ext.uri] = true
+	}
+
+	return engine.negotiatedAudio, engine.negotiatedVideo, sameURITwice
+}
